@@ -67,6 +67,7 @@ def main():
                 r = run([os.path.join(VERIF, 'check'), pid, '--tier', tier], env=env)
                 line = [l for l in r.stdout.splitlines() if l.startswith(('VIOLATION', 'OK', 'CHECK-', 'KNOWN'))]
                 print('%s seed=%d exit=%d %.0fs %s' % (pid, sd, r.returncode, time.time() - t0, ' | '.join(line)[:500]))
+                line.sort(key=lambda l: not l.startswith('VIOLATION'))   # violations first: the pinned KNOWN-FINDING lines of C01 / C11 would crowd them out
                 results.setdefault(pid, []).append({'seed': sd, 'exit': r.returncode, 'wall_s': round(time.time() - t0), 'lines': line[:3]})
         meta['results'] = results
         for pid, v in results.items():
